@@ -35,7 +35,8 @@ EXPECT_OUTCOMES = ["refused", "parsed"]
 
 ENTRY = ["ovf", "vbox", "pvs", "hdd"]
 FAMILIES = ["internal", "laughs", "external-file", "external-http", "param-internal", "param-external", "external-dtd",
-            "doctype-only", "plain", "predefined-redeclared", "predefined-case-variant", "unparsed", "internal-empty"]
+            "doctype-only", "plain", "predefined-redeclared", "predefined-case-variant", "unparsed", "internal-empty",
+            "external-empty-sysid", "param-empty", "internal-empty-unused"]
 # entity names that case-fold to one of the five predefined names (expat only hard-wires the exact lower-case spellings)
 CASE_VARIANTS = ["AMP", "LT", "Gt", "Apos", "QUOT", "aMp"]
 SITES = ["text", "attribute", "unused"]
@@ -44,6 +45,7 @@ SITES = ["text", "attribute", "unused"]
 ALT_NS = {"vbox": ["http://www.innotek.de/VirtualBox-settings", "urn:other"],
           "ovf": ["http://schemas.dmtf.org/ovf/envelope/2", "urn:other"], "pvs": ["urn:parallels:pvs"], "hdd": ["urn:parallels:hdd"]}
 SEQ_KINDS = ["plain", "undeclared-reference", "internal", "laughs", "external-file"]
+# "plain-v": a document without any declaration whose content equals what the "internal" document expands to
 
 
 def shards(tier):
@@ -142,6 +144,14 @@ def run_shard(shard, ctx):
                 continue
             for samestat in ((False, True) if sum(1 for e, _ in seq if e == "hdd") >= 2 else (False,)):
                 run_case({"sequence": [list(x) for x in seq], "samestat": samestat}, ctx)
+        if shard["seq"] == "pairs" and i == 0:
+            # large documents (40 / 70 KiB of comment padding): first the entity-free twin of a hostile document (identical once
+            # entities are expanded and comments dropped), then the hostile one -- and the other way round
+            for e in ENTRY:
+                for pad in (40000, 70000):
+                    for seq in ([[e, "plain-v"], [e, "internal"]], [[e, "internal"], [e, "plain-v"], [e, "internal"]],
+                                [[e, "plain-v"], [e, "plain-v"], [e, "laughs"]]):
+                        run_case({"sequence": seq, "samestat": False, "pad": pad}, ctx)
         return
     for fam in FAMILIES:
         deep = 7 if shard.get("tier", "quick") == "quick" else 11
@@ -195,6 +205,12 @@ def _doctype(fam, depth, canary, root):
         return f'<!DOCTYPE {root} [<!ENTITY {nm} "expanded-{nm}">]>', f"&{nm};"
     if fam == "unparsed":
         return f'<!DOCTYPE {root} [<!NOTATION n SYSTEM "n"><!ENTITY pic SYSTEM "file://{canary}" NDATA n>]>', None
+    if fam == "external-empty-sysid":
+        return f'<!DOCTYPE {root} [<!ENTITY self SYSTEM "">]>', None
+    if fam == "param-empty":
+        return f"<!DOCTYPE {root} [<!ENTITY % pad ''>]>", None
+    if fam == "internal-empty-unused":
+        return f'<!DOCTYPE {root} [<!ENTITY pad "">]>', None
     if fam == "internal-empty":
         return f'<!DOCTYPE {root} [<!ENTITY e "">]>', "&e;"
     if fam == "external-file":
@@ -289,12 +305,20 @@ def _run_sequence(case, ctx):
                 f.write('<!ENTITY g "leaked">' if p.endswith(".dtd") else "TOP-SECRET")
         docs = []
         for entry, kind in case["sequence"]:
-            if kind == "undeclared-reference":
+            if kind == "plain-v":
+                doc, expect = _document(entry, "internal", 2, "text", canary)
+                lo, hi = doc.index("<!DOCTYPE"), doc.index("]>") + 2
+                doc = (doc[:lo] + doc[hi:]).replace("&e1;", "v")
+                kind = "plain"
+            elif kind == "undeclared-reference":
                 doc, expect = _document(entry, "plain", 1, "text", canary)
                 # a reference to an entity nobody declared (e.g. an HTML name): no declaration anywhere in the document
                 doc = doc.replace("</", "&nbsp;</", 1)
             else:
                 doc, expect = _document(entry, kind, 2, "text", canary)
+            if case.get("pad"):
+                cut = doc.rindex("</")
+                doc = doc[:cut] + "<!--" + "p" * case["pad"] + "-->" + doc[cut:]
             docs.append([entry, kind, doc, expect])
         if case.get("samestat"):
             # every DiskDescriptor.xml of the sequence has the same byte size and the same timestamps
